@@ -32,7 +32,11 @@ def s_case(draw):
     spec = draw(ML.tree(domain, depth))
     value = draw(ML.VALUES[domain])
     fs = draw(ML.FS) if ML.uses_domain(spec, "path") else None
-    return {"domain": domain, "matcher": spec, "value": value, "fs": fs,
+    fs2 = draw(ML.FS) if fs is not None and draw(st.booleans()) else None       # what the scratch directory holds later on
+    list_flavour = "list"
+    if domain == "list" and not ML.has_node(spec, lambda n: n.get("d") == "list" and n["m"] in ("Equals", "Is")):
+        list_flavour = draw(st.sampled_from(["list", "tuple", "tuple"]))       # a tuple equals no list, and copies of a tuple are the tuple
+    return {"domain": domain, "matcher": spec, "value": value, "fs": fs, "fs2": fs2, "list_flavour": list_flavour,
             "dict_flavour": draw(st.sampled_from(["dict", "dict", "defaultdict", "Counter"])) if domain == "dict" else "dict"}
 
 
@@ -48,6 +52,7 @@ def _run_case(spec):
     domain, ms, value = spec["domain"], spec["matcher"], spec["value"]
     with ML.Env(spec.get("fs"), defer=True) as env:
         env.dict_flavour = spec.get("dict_flavour", "dict")      # dict subclasses with __missing__ are dicts too
+        env.list_flavour = spec.get("list_flavour", "list")
         # a matcher constructed while the scratch directory is still empty: what it says later depends on the
         # file system at match time, not at construction time
         early = ML.build(ms, env) if spec.get("fs") is not None else None
@@ -79,6 +84,8 @@ def _run_case(spec):
                     raise
                 return ("raised", e)
         kind, res = do(matcher, live)
+        if env.list_flavour == "iter":
+            live = ML.live_value(domain, value, env)         # the first match() has used the iterator up: a fresh one for the second
         if isinstance(want, ML.Propagates):
             if kind != "raised" or type(res).__name__ != want.exc_name:
                 vs.append(V("propagation", top, "%s: a %s raised by the matchee should propagate, got %s %r" % (
@@ -107,6 +114,21 @@ def _run_case(spec):
             if (k4, r4 is None) != (kind, got):
                 vs.append(V("determinism", "built-before-the-files-existed-" + top,
                             "a structurally equal matcher constructed before the files were created gives a different verdict"))
+        if spec.get("fs2") is not None and not vs:
+            # the files change; the very same matcher object (and the one built before any file existed) is asked again
+            env.repopulate(spec["fs2"])
+            try:
+                want2 = ML.ref(ms, value, env)
+            except ML.Propagates:
+                want2 = None
+            if want2 is not None:
+                for who, mm in (("same-matcher", matcher), ("early-matcher", early)):
+                    k5, r5 = do(mm, ML.live_value(domain, value, env))
+                    if k5 != "verdict" or (r5 is None) != want2:
+                        vs.append(V("verdict", "stale-after-the-files-changed-" + top, "%s: after the scratch directory changed from %r to %r, match(%r) says %s, the documented predicate says %s" % (
+                            who, spec["fs"], spec["fs2"], value, "match" if k5 == "verdict" and r5 is None else (k5 if k5 != "verdict" else "mismatch"), "match" if want2 else "mismatch")))
+                        break
+            snap_m = ML.snapshot(matcher)
         if ML.snapshot(matcher) != snap_m:
             vs.append(V("side-effect", "matcher-" + top, "match() modified the matcher: %s -> %s" % (snap_m[:300], ML.snapshot(matcher)[:300])))
         if snap_v is not None and ML.snapshot(live) != snap_v:
@@ -169,6 +191,24 @@ def _enum_nested():
             yield {"domain": "list", "matcher": M("AfterPreprocessing", "list", fn="sorted", inner=x, annotate=True), "value": v, "fs": None}
 
 
+def _enum_one_shot():
+    """The sequence matchers that are documented for iterators / 'values', fed one-shot iterators."""
+    M = ML.M
+    leaves = [M("Equals", "int", k=1), M("LessThan", "int", k=2), M("Always", "int"), M("Never", "int")]
+    values = [list(t) for n in range(0, 4) for t in itertools.product([0, 1, 2], repeat=n)]
+    trees = []
+    for lf in leaves:
+        trees += [M("AllMatch", "list", inner=lf), M("AnyMatch", "list", inner=lf), M("Not", "list", inner=M("AllMatch", "list", inner=lf))]
+    for n in range(0, 3):
+        for combo in itertools.product(leaves, repeat=n):
+            trees.append(M("MatchesSetwise", "list", inner=list(combo), share=False))
+    for l in ([], [1], [1, 1], [1, 2], [2, 1, 0]):
+        trees.append(M("SameMembers", "list", l=l))
+    for t in trees:
+        for v in values:
+            yield {"domain": "list", "matcher": t, "value": v, "fs": None, "list_flavour": "iter"}
+
+
 def _enum_fs_and_raises():
     """Small exhaustive grids for the sparse corners: filesystem matchers x scratch-directory shapes, and
     Raises/raises x every kind of raised error (incl. non-Exception ones, matched and unmatched)."""
@@ -185,9 +225,12 @@ def _enum_fs_and_raises():
               M("DirContains", "path", filenames=[]), M("FileContains", "path", contents="hello\n"), M("FileContains", "path", contents="hello"),
               M("SamePath", "path", other="file_a"), M("SamePath", "path", other="dir_a/../file_a"), M("SamePath", "path", other="link_a"),
               M("TarballContains", "path", paths=["m2"]), M("TarballContains", "path", paths=[])]
+    fs_later = {"file_a": "hello", "file_a_mode": "0600", "file_b": "hello\n", "dir_a": ["x"], "tar_a": ["m1"]}
     for lf in leaves:
         for path in ML.PATH_NAMES:
             yield {"domain": "path", "matcher": lf, "value": path, "fs": fs}
+            yield {"domain": "path", "matcher": lf, "value": path, "fs": fs, "fs2": fs_later}
+            yield {"domain": "path", "matcher": lf, "value": path, "fs": fs_later, "fs2": fs}
     raised = ["ValueError", "KeyError", "LookupError", "CustomError", "KeyboardInterrupt", "SystemExit", "CustomBase"]
     expected = raised + ["Exception", "BaseException", "ArithmeticError"]
     callables = [{"ret": 1}] + [{"raise": {"exc": e, "args": ["boom"]}} for e in raised]
@@ -209,6 +252,9 @@ def subchecks(tier):
         Sub("nested_combinators_with_empties", run_case, enum=_enum_nested, enum_complete=True,
             note="22 inner list combinators (incl. MatchesAny() / MatchesAll() / AnyMatch on []) under 8 list parents x 31 "
                  "lists of lists, and under MatchesDict / ContainsDict / MatchesStructure / AfterPreprocessing"),
+        Sub("one_shot_iterators", run_case, enum=_enum_one_shot, enum_complete=True,
+            note="AllMatch / AnyMatch / Not(AllMatch) / MatchesSetwise (<= 2 leaves) / SameMembers x every list over {0,1,2} of "
+                 "length <= 3, handed over as a one-shot iterator"),
         Sub("enumerated_list_combinators", run_case, enum=_enum(2 if q else 3), enum_complete=True,
             note="AllMatch/AnyMatch/Not(AnyMatch)/MatchesSetwise/MatchesListwise over every tuple of <= %d leaves from a "
                  "9-leaf int alphabet x every list over {0,1,2} of length <= 3" % (2 if q else 3)),
